@@ -79,6 +79,8 @@ Qed.
 
 Lemma fetched_app : forall l1 l2, fetched (l1 ++ l2) = fetched l1 ++ fetched l2.
 Proof. intros. unfold fetched. apply flat_map_app. Qed.
+Lemma fetched_N : forall v cs, fetched [EvFetchN v cs] = cs.
+Proof. intros. unfold fetched. cbn [flat_map]. apply app_nil_r. Qed.
 
 Section Step.
 Variable validate : Z -> Z -> verr.
@@ -216,15 +218,15 @@ Proof.
     destruct x as [resp |].
     + pose proof (recv_facts ft misses resp s) as Hr.
       destruct (recv fl ft misses s resp) as [[s' revs] routs]. destruct Hr as [Hre Hro].
-      unfold req_ok. rewrite !fetched_app, He, Hf, Hre. cbn [out_blocks req_of app fetched flat_map].
+      unfold req_ok. rewrite !fetched_app, fetched_N, He, Hf, Hre. cbn [out_blocks req_of app].
       rewrite app_nil_r, Hmiss, map_app, forallb_app, Houts. cbn [andb].
       rewrite andb_true_r. rewrite forallb_forall. intros b Hb. apply in_map_iff in Hb.
       destruct Hb as [q [E Hq]]. subst b. destruct (Hro q Hq) as [Hacc _].
       unfold accept in Hacc. rewrite Hc in Hacc. cbn [orb] in Hacc. apply andb_true_iff in Hacc.
       destruct Hacc as [Hin _]. apply (cid_in_sub _ misses); [exact Hin |].
       intros y Hy. apply filter_keys_sub. apply (Hm y Hy).
-    + unfold req_ok. rewrite !fetched_app, He, Hf. cbn [out_blocks req_of app fetched flat_map].
-      rewrite app_nil_r, Hmiss, Houts. reflexivity.
+    + unfold req_ok. rewrite !fetched_app, fetched_N, He, Hf. cbn [out_blocks req_of app].
+      rewrite Hmiss, Houts. reflexivity.
   - reflexivity.
 Qed.
 
@@ -349,9 +351,8 @@ Proof.
       destruct (recv fl ft misses s resp) as [[s' revs] routs]. destruct Hr as [Hre Hro].
       split.
       * cbn [cached_ok]. rewrite forallb_app, Houts. cbn [andb]. rewrite forallb_forall. intros q Hq. apply (Hro q Hq).
-      * unfold miss_ok. rewrite !fetched_app, He, Hf, Hre. cbn [app fetched flat_map]. rewrite app_nil_r. exact Hmiss.
-    + split; [exact Houts |]. unfold miss_ok. rewrite !fetched_app, He, Hf. cbn [app fetched flat_map].
-      rewrite app_nil_r. exact Hmiss.
+      * unfold miss_ok. rewrite !fetched_app, fetched_N, He, Hf, Hre. cbn [app]. rewrite app_nil_r. exact Hmiss.
+    + split; [exact Houts |]. unfold miss_ok. rewrite !fetched_app, fetched_N, He, Hf. cbn [app]. exact Hmiss.
   - split; reflexivity.
 Qed.
 
